@@ -46,6 +46,19 @@ def run_phase(ctx, res, prop, n_quick=36, n_thorough=400):
         tid = len(traces) + 1
         traces.append({"id": "M%d" % tid, "v1": v1, "ev": ev})
         info["M%d" % tid] = inf
+    # every well-formed command (and a sample of the other line classes) through each entry point: the SGX and
+    # TCPSigner managers take platform-specific branches for the same requests
+    from . import lines as _lines
+    good = sorted(n for n in _lines.CLASSES if n.startswith("ok_"))
+    for plat in ("sgx", "tcp", "ledger"):
+        names = good + rng.sample(sorted(set(_lines.CLASSES) - set(good)), ctx.pick(10, 60))
+        rng.shuffle(names)
+        given = [(n, _lines.CLASSES[n](random.Random("mp:%s:%s" % (n, ctx.seed)))) for n in names]
+        ev, inf = procmgr.run_lifetime(ctx.scratch, "%s_all_%s" % (prop, plat), True, ["client"] * len(given), False, rng,
+                                       start_env=(dict(procmgr.GOOD_ENV), "f"), plat=plat, client_lines=given)
+        tid = len(traces) + 1
+        traces.append({"id": "M%d" % tid, "v1": False, "ev": ev})
+        info["M%d" % tid] = inf
     verdicts, stats = tlc.validate("TraceManager", "Trace_Manager.cfg", traces, shards=4)
     res.checker_cmds.append("tlc -workers 1 -config Trace_Manager.cfg TraceManager (x%d shards)" % stats["jvms"])
     accepted = 0
